@@ -2,7 +2,7 @@
 from checks import tracebase, cropfam
 
 PROP = "C06"
-MCS = {"quick": [("MC_Clock1.tla", "MC_Clock1.cfg", 1800)], "thorough": [("MC_Clock1.tla", "MC_Clock1.cfg", 1800)]}
+MCS = {"quick": [("MC_Clock1.tla", "MC_ClockQ.cfg", 1800)], "thorough": [("MC_Clock1.tla", "MC_Clock1.cfg", 1800)]}
 
 
 def run(tier, seed):
